@@ -425,12 +425,14 @@ class HierarchicalCache:
         assert oid is not None
         if node.oid == oid:
             return
+        path = node.full_path()
         self.delete(oid=oid)  # we know anything at that oid must be a different node
-        if node.oid is None:
+        if node.oid is None and node.full_path() is not None:
             node.oid = oid
             self._oid_to_node[oid] = node
         else:
-            self.__make_node(node.type, node.full_path(), oid)
+            # either the oid changed, or the delete above evicted an ancestor that held this oid (and node with it)
+            self.__make_node(node.type, path, oid)
 
 
     def get_oid(self, path):
